@@ -504,10 +504,13 @@ func c02Jobs(thorough bool) []c02Job {
 	// cumulative exporter: an interval export in flight while Shutdown makes its final collection
 	p5 := c02Scn{name: "P5-periodic-cumulative-shutdown", kind: "int", rec: [][]string{{A}, {A}}, collects: [][]string{{"F"}, {"S"}}, periodic: true, cumExport: true}
 	m6 := c02Scn{"M6-int-2scopes", "int", [][]string{{A, B}, {B, A}}, [][]string{{"D", "D"}}, false, true, false}
+	// a NEW set measured by two threads with a delta collection in between, while another set of the
+	// same cycle keeps the stream table at the same size before and after the collection
+	m10 := c02Scn{"M10-new-set-twice-across-a-delta-collection", "int", [][]string{{A, B}, {B}}, [][]string{{"D"}}, false, false, false}
 	if !thorough {
-		return []c02Job{{m1, 3, 0}, {m2, 3, 0}, {m3, 3, 0}, {m4, 3, 0}, {m6, 2, 0}, {p1, 1, 1}, {p2, 1, 0}, {p2, 0, 1}, {p4, 1, 1}, {p5, 1, 0}, {p5, 0, 1}}
+		return []c02Job{{m10, 3, 0}, {m1, 3, 0}, {m2, 3, 0}, {m3, 3, 0}, {m4, 3, 0}, {m6, 2, 0}, {p1, 1, 1}, {p2, 1, 0}, {p2, 0, 1}, {p4, 1, 1}, {p5, 1, 0}, {p5, 0, 1}}
 	}
-	return []c02Job{{m1, 4, 0}, {m2, 4, 0}, {m3, 4, 0}, {m4, 4, 0}, {m5, 2, 0}, {m5, 3, 0}, {p1, 2, 2}, {p2, 1, 1}, {p2, 2, 0}, {p3, 1, 1}, {p3, 2, 0}, {p4, 2, 1}, {p4, 1, 2}, {m6, 3, 0}, {p5, 2, 1}}
+	return []c02Job{{m10, 4, 0}, {m1, 4, 0}, {m2, 4, 0}, {m3, 4, 0}, {m4, 4, 0}, {m5, 2, 0}, {m5, 3, 0}, {p1, 2, 2}, {p2, 1, 1}, {p2, 2, 0}, {p3, 1, 1}, {p3, 2, 0}, {p4, 2, 1}, {p4, 1, 2}, {m6, 3, 0}, {p5, 2, 1}}
 }
 
 // c02SameName: "for every counter and up-down counter ... the sum of the measurements recorded" is
